@@ -89,6 +89,23 @@ Theorem C20_handler_never_crashes : forall cats es s c, run cats init es = Some 
   existsb is_fault es = false -> st_hand s c <> Some HCrashed.
 Proof. exact never_crashed. Qed.
 
+(* The stream-opening call of the API client may stay pending for any number of loop iterations: while it
+   does, only the handler's own state differs (HOpening, no receiver yet, so nothing is accepted, taken or
+   sent for the component); a new request arriving meanwhile is registered and puts the handler back to
+   "starting" (the task is cancelled inside the call and replaced), so the stream is opened again by the
+   replacement and C20_handler_start_runs applies to it.
+   Assumed about the client: a cancelled opening call leaves nothing behind (the receiver is created when the
+   call returns), and cancelling one task does not poison the opening call of its replacement. *)
+Theorem C20_opening_call_frame : forall cats es s c s' o, run cats init es = Some s ->
+  step cats s (HandlerOpen c) = Some (s', o) -> s' = set_hand s c HOpening /\ o = [] /\ st_recv s c = None.
+Proof. exact open_frame. Qed.
+
+Theorem C20_request_while_opening : forall cats s c n cat,
+  st_hand s c = Some HOpening -> cats c = Some cat -> supported cat (n_metric n) = true -> ~ In n (st_subs s c) ->
+  exists s', step cats s (AddMetric c n) = Some (s', []) /\ st_hand s' c = Some HStarting /\
+             st_subs s' c = st_subs s c ++ [n] /\ st_recv s' = st_recv s.
+Proof. exact add_while_opening. Qed.
+
 (* What must persist across faults: a failing API client call during a handler (re)start, a failing
    `components()` inside add_metric (the request is dropped) and a restart of the actor's `_run()` change
    neither subscriptions, receivers/buffers, in-flight tasks nor anything sent; the last two change
@@ -116,7 +133,7 @@ Example C20_nonvacuous :
   let cats := cats_of [(4, Meter)] in
   let a := mkN 0 0 in let b := mkN 14 0 in
   let m k := mkMsg (k * 1000000) (map (fun i => 100 * k + Z.of_nat i) (seq 0 28)) in
-  match run cats init [AddMetric 4 a; HandlerStart 4; ApiMsg 4 (m 1); ApiMsg 4 (m 2); Take 4;
+  match run cats init [AddMetric 4 a; HandlerOpen 4; AddMetric 4 a; HandlerStart 4; ApiMsg 4 (m 1); ApiMsg 4 (m 2); Take 4;
                        AddMetric 4 b; AddMetric 4 a; AddMetric 7 a; AddMetric 4 (mkN 15 0); AddFault 9 a; Restart; HandlerFail 4; HandlerStart 4; Take 4; ApiMsg 4 (m 3);
                        Deliver; Take 4; Deliver; Deliver] with
   | Some s => chan_out 4 a (st_out s) = [(1000000, 100); (2000000, 200); (3000000, 300)] /\
@@ -138,5 +155,7 @@ Print Assumptions C20_unknown.
 Print Assumptions C20_invalid_request_ignored.
 Print Assumptions C20_handler_never_crashes.
 Print Assumptions C20_faults_and_restart_keep_state.
+Print Assumptions C20_opening_call_frame.
+Print Assumptions C20_request_while_opening.
 Print Assumptions C20_handler_start_runs.
 Print Assumptions C20_checked_traces_are_runs.
